@@ -95,7 +95,8 @@ def r2_kill(report, repo, rule='C12-R2'):
                      'before the thread started does not prevent its body')
     return
   others = [n for n in g.nodes if n.kind in ('test', 'stmt') and n.ast is not None
-            and n is not sets[0][0] and not isinstance(n.ast, ast.Constant) and
+            and n is not sets[0][0] and not lib.is_transparent(n) and
+            not isinstance(n.ast, ast.Constant) and
             not (isinstance(n.ast, ast.Expr) and isinstance(n.ast.value,
                                                             ast.Constant))]
   ok = all(g.dominated_by(n, lambda x: x is sets[0][0]) for n in others)
@@ -203,10 +204,14 @@ def r3_join_or_die(report, repo):
   report.expect_instances(rule, len(loops), 1, 'wait loops')
   lp = loops[0]
   t = lp.test
+  # the deadline local: what is computed as time.monotonic() + <timeout>
+  dln = lib.local_from(
+      f, lambda e: isinstance(e, ast.BinOp) and isinstance(e.op, ast.Add) and
+      call_name(e.left) == 'time.monotonic', 'deadline')
   ok = isinstance(t, ast.Compare) and len(t.ops) == 1 and (
       (isinstance(t.ops[0], ast.Lt) and call_name(t.left) == 'time.monotonic'
-       and core.is_name(t.comparators[0], 'deadline')) or
-      (isinstance(t.ops[0], ast.Gt) and core.is_name(t.left, 'deadline') and
+       and core.is_name(t.comparators[0], dln)) or
+      (isinstance(t.ops[0], ast.Gt) and core.is_name(t.left, dln) and
        call_name(t.comparators[0]) == 'time.monotonic'))
   report.check(ok, rule, f.qualname, 'loop-bounded-by-deadline', lp,
                'wait loop runs only while time.monotonic() < deadline',
@@ -230,7 +235,7 @@ def r3_join_or_die(report, repo):
                  'body blocks the executor past the deadline' %
                  (norm(a) if a is not None else 'none'))
   dl = [n for n in walk_no_nested(f.node) if isinstance(n, ast.Assign) and
-        any(core.is_name(x, 'deadline') for x in n.targets)]
+        any(core.is_name(x, dln) for x in n.targets)]
   ok = len(dl) == 2 and all(
       isinstance(d.value, ast.BinOp) and isinstance(d.value.op, ast.Add) and
       call_name(d.value.left) == 'time.monotonic' for d in dl)
